@@ -613,7 +613,8 @@ class DiscreteFourierTransformInverse(DiscreteFourierTransformBase):
             Result of the transform
         """
         if self.halfcomplex:
-            return np.fft.irfftn(x, axes=self.axes)
+            s = np.take(self.range.shape, self.axes)
+            return np.fft.irfftn(x, axes=self.axes, s=s)
         else:
             if self.sign == '+':
                 return np.fft.ifftn(x, axes=self.axes)
